@@ -30,7 +30,7 @@ PROFILES = [
     ('kitchen',     2, dict(reexport=0.7, multi_reexport=True, dup=0.3, onto_existing=0.3, zope=0.3, docassign=0.3,
                             method_alias_reexport=0.4, module_reexport=0.4, fields=0.4, nested=0.4, cyclic=True, inconsistent=0.2)),
     ('inconsistent', 1, dict(reexport=0.3, inconsistent=0.6, defs=(2, 5))),
-    ('inner',       2, dict(reexport=0.5, inner_defs=0.6, nested=0.3, roots=(1, 2))),
+    ('inner',       2, dict(reexport=0.5, inner_defs=0.6, nested=0.3, roots=(1, 2), module_deco=0.3)),
     ('clash',       2, dict(reexport=0.5, roots=(1, 1), root_clash=0.8, nested=0.3, rebind_same=0.4, star=0.4)),
     ('rebind',      2, dict(reexport=0.9, roots=(1, 2), rebind_same=0.6, star=0.6, imports=(1, 4), shadow_import=0.3)),
 ]
